@@ -57,6 +57,20 @@ def ofHash (prev chash sig : Bytes) : Token := ⟨prev, chash, sig, none⟩
 def receiveContent (C : Crypto) (t : Token) (c : Bytes) : Token × Bool :=
   if C.hash c == t.chash then ({ t with content := some c }, true) else (t, false)
 
+/-- to_database_tuple: (previous hash, signature, content hash, content) -/
+def toDatabaseTuple (t : Token) : Bytes × Bytes × Bytes × Option Bytes := (t.prev, t.sig, t.chash, t.content)
+
+/-- from_database_tuple: build from the pointer and the signature, then hand the stored content to
+    `receive_content` (which drops it when it does not hash to the pointer) -/
+def ofDatabaseTuple (C : Crypto) (prev sig chash : Bytes) (content : Option Bytes) : Token :=
+  match content with
+  | none => ofHash prev chash sig
+  | some c => ((ofHash prev chash sig).receiveContent C c).1
+
+/-- Token.create(previous_token, content, private_key), the signature being what the key produced -/
+def create (C : Crypto) (previous : Token) (content sig : Bytes) : Token :=
+  ofContent C (previous.id C) content sig
+
 /-- the content of a token is absent or hashes to its content pointer -/
 def contentOk (C : Crypto) (t : Token) : Prop :=
   ∀ c, t.content = some c → C.hash c = t.chash
